@@ -531,6 +531,84 @@ Definition validate_me (v : Z) (f : fws6) (bpmsvn kmsvn kmid : Z) : verd :=
     else good
   else bad.   (* "can't identify bootguard header" *)
 
+(** ** Where the ME status words come from (hfsts.go: readHFSTSFromPCIConfigSpace)
+
+    The verdicts above take the decoded HFSTS word; the code obtains it by walking the
+    visible PCI devices ([hw.PCIEnumerateVisibleDevices], in the order the platform hands
+    them over) with a callback that reads the config dword at [hfstsOffset[n-1]] of a device
+    whose device number is 16 (CSME) or 22 (SPS) and whose function is 0 - the bus number is
+    not looked at - and asks the walk to stop.  A platform is the list of its visible devices
+    in enumeration order; [p_cfg]: the six dwords at config offsets 0x40, 0x48, 0x60, 0x64,
+    0x68, 0x6c (HFSTS1..6), [None] when the config space of the device cannot be read;
+    [enum_err]: the enumeration itself reports an error after the last listed device (never
+    reached when the callback stopped the walk before). *)
+Record pcidev : Type := mkdev { p_bus : Z; p_dev : Z; p_fn : Z; p_cfg : option (list Z) }.
+
+Definition ME_CSME_DEV : Z := 16.
+Definition ME_SPS_DEV : Z := 22.
+Definition is_me (d : pcidev) : bool :=
+  ((p_dev d =? ME_CSME_DEV) && (p_fn d =? 0)) || ((p_dev d =? ME_SPS_DEV) && (p_fn d =? 0)).
+
+(** what the closure has captured: [HWord w] = (4 bytes, nil error), [HErr] = a non-nil error *)
+Inductive hres : Type := HErr | HWord (w : Z).
+
+Definition hfsts_word (n : Z) (d : pcidev) : option Z :=
+  match p_cfg d with
+  | None => None
+  | Some ws => nth_error ws (Z.to_nat (n - 1))
+  end.
+Definition read_dev (n : Z) (d : pcidev) : hres :=
+  match hfsts_word n d with Some w => HWord w | None => HErr end.
+
+(** the walk: captured state so far -> (captured state, walk was stopped by the callback);
+    the callback returns true after the read of a matching device, failed or not *)
+Fixpoint pci_walk (n : Z) (devs : list pcidev) (st : hres) : hres * bool :=
+  match devs with
+  | [] => (st, false)
+  | d :: t => if is_me d then (read_dev n d, true) else pci_walk n t st
+  end.
+
+(** [hfsts := make([]byte, 4)]; [err = nil] before the walk *)
+Definition read_hfsts (n : Z) (devs : list pcidev) (enum_err : bool) : hres :=
+  if (n <? 1) || (6 <? n) then HErr
+  else
+    let '(st, stopped) := pci_walk n devs (HWord 0) in
+    if negb stopped && enum_err then HErr else st.
+
+(** GetHFSTS6 / GetHFSTS1 as the harness observes them: the error, or the status word put
+    together again from the decoded fields (HFSTS6: all 32 bits; HFSTS1: bits 27..0) *)
+Definition get_hfsts6 (devs : list pcidev) (ee : bool) : option Z :=
+  match read_hfsts 6 devs ee with HErr => None | HWord w => Some w end.
+Definition get_hfsts1 (devs : list pcidev) (ee : bool) : option Z :=
+  match read_hfsts 1 devs ee with HErr => None | HWord w => Some (Z.land w 268435455) end.
+
+(** the verdicts on a platform, composed as pkg/test BootGuardSaneMEConfig /
+    BootGuardValidateME compose them: no status, no success *)
+Definition sane_me_plat (strict : bool) (v : Z) (devs : list pcidev) (ee : bool) (msr : Z) : verd :=
+  match read_hfsts 6 devs ee with
+  | HErr => bad
+  | HWord w => sane_me_raw strict v w msr
+  end.
+Definition validate_me_plat (v : Z) (devs : list pcidev) (ee : bool) (bpmsvn kmsvn kmid : Z) : verd :=
+  match read_hfsts 6 devs ee with
+  | HErr => bad
+  | HWord w => validate_me v (decode_hfsts6 w) bpmsvn kmsvn kmid
+  end.
+
+(** the pkg/test entry points BootGuardSaneMEConfig / BootGuardValidateME (after the
+    manifests were read from the firmware image; [v]: their Boot Guard version): an
+    unavailable status is the test error alone, a negative verdict comes with the verdict's
+    own error as second error *)
+Definition test_wrap (h : hres) (f : Z -> verd) : verd :=
+  match h with
+  | HErr => fail
+  | HWord w => if verd_eqb (f w) good then pass else V false true true
+  end.
+Definition test_sane_me_plat (strict : bool) (v : Z) (devs : list pcidev) (ee : bool) (msr : Z) : verd :=
+  test_wrap (read_hfsts 6 devs ee) (fun w => sane_me_raw strict v w msr).
+Definition test_validate_me_plat (v : Z) (devs : list pcidev) (ee : bool) (bpmsvn kmsvn kmid : Z) : verd :=
+  test_wrap (read_hfsts 6 devs ee) (fun w => validate_me v (decode_hfsts6 w) bpmsvn kmsvn kmid).
+
 (** hash algorithm ids: SHA1 = 4, Null = 0x10, unset = 0 *)
 Definition insecure_alg (a : Z) : bool := (a =? 4) || (a =? 16) || (a =? 0).
 
